@@ -458,6 +458,9 @@ void XSerializeEngine::read(XMLByte* const toRead
         memcpy(tempRead, fBufCur, fBufSize);
         tempRead   += fBufSize;
         readRemain -= fBufSize;
+        // the whole buffer has been consumed: leave the cursor at its end so
+        // that the next read refills instead of re-reading this block
+        fBufCur     = fBufLoadMax;
     }
 
     // read the remaining if any
